@@ -18,7 +18,7 @@ import sys
 import time
 
 VERIF = os.path.dirname(os.path.dirname(os.path.abspath(__file__)))
-ROOT = "/tmp/verif-sweep"
+ROOT = os.environ.get("VERIF_SWEEP_ROOT", "/tmp/verif-sweep")
 ALL = [f"C{k:02d}" for k in range(1, 21)]
 
 
